@@ -46,11 +46,11 @@ def Genesis (s : State) : Prop :=
 
 def Reachable (s : State) : Prop := ∃ s0 ops, Genesis s0 ∧ s = run s0 ops
 
-/-- C05(d), full strength: a farmer can at any height withdraw any amount up to the recorded
-stake.  FALSE of the code (F-farm-1): see `Props.C05.withdraw_can_fail`. -/
+/-- C05(d), full strength: a farmer can at any height withdraw any positive amount up to the
+recorded stake (a zero amount is rejected by `ValidateBasic` since commit 67e8fd2).  FALSE of the code (F-farm-1): see `Props.C05.withdraw_can_fail`. -/
 def WithdrawNeverFails : Prop :=
   ∀ s, Reachable s → ∀ a id f p amt, getFarmer s a id = some f → getPool s id = some p →
-    amt ≤ f.locked → ∃ s', step s (.unstake a id p.lpt amt) = .ok s'
+    0 < amt → amt ≤ f.locked → ∃ s', step s (.unstake a id p.lpt amt) = .ok s'
 
 /-! ### monitor -/
 
@@ -149,7 +149,7 @@ def check (m : Mon) (pre : State) (op : Op) (res : String) (post : State) : Mon 
      | .unstake a id denom amt =>
        match getFarmer pre a id, getPool pre id with
        | some f, some p =>
-         if amt ≤ f.locked ∧ denom = p.lpt then
+         if 0 < amt ∧ amt ≤ f.locked ∧ denom = p.lpt then
            if res == "ok" then
              (if interactionOk pre post a id denom (-(amt : Int)) then [] else ["clause=withdraw-exact"])
            else if collectorShort pre a id denom amt then ["clause=withdraw class=F-farm-1"]
